@@ -120,7 +120,18 @@ void splinetable<Alloc>::convolve(const uint32_t dim, const double* conv_knots, 
 	//space for the new ones. Most of the old knot data we still need, so we
 	//have to make temporary buffers for it.
 	
+	//From here on the table is taken apart. If putting it back together fails
+	//(the allocations below can throw) leave it empty rather than half built.
+	struct convolve_cleanup{
+		splinetable* table;
+		~convolve_cleanup(){
+			if(table)
+				table->clear();
+		}
+	} cleanup{this};
+	
 	deallocate(this->coefficients,this->naxes[0]*this->strides[0]);
+	this->coefficients=nullptr;
 	
 	std::unique_ptr<std::unique_ptr<double[]>[]> knots_store(new std::unique_ptr<double[]>[ndim]);
 	for (uint32_t i = 0; i < ndim; i++) {
@@ -130,6 +141,7 @@ void splinetable<Alloc>::convolve(const uint32_t dim, const double* conv_knots, 
 			std::copy(knots[i],knots[i]+nknots[i],knots_store[i].get());
 		}
 		deallocate(knots[i]-order[i],nknots[i]+2*order[i]);
+		knots[i]=nullptr;
 	}
 	
 	this->nknots[dim] = n_rho;
@@ -154,6 +166,8 @@ void splinetable<Alloc>::convolve(const uint32_t dim, const double* conv_knots, 
 	 * that the surface will remain monotonic over its full extent.
 	 */
 	this->extents[dim][1] += conv_knots[0];
+	
+	cleanup.table=nullptr; //success
 }
 
 } //namespace photospline
